@@ -459,7 +459,7 @@ func TestVerifC31(t *testing.T) {
 	saved := time.Local
 	defer func() { time.Local = saved }()
 	verifutil.Main(t, &verifutil.Harness{
-		ID: "C31", Exec: verifC31Exec, Gen: verifC31Gen, Quick: 450, Thorough: 12000,
+		ID: "C31", Exec: verifC31Exec, Gen: verifC31Gen, Quick: 320, Thorough: 12000,
 		Class: func(op, impl string) string {
 			f := strings.Fields(op)
 			switch f[0] {
